@@ -125,7 +125,9 @@ CLAIMS = {
   "Partial, and labelled so. Proved in Lean: the size bookkeeping of the growable per-row / per-column arrays (counts vs rowsize / colsize / structsize / matcolsize with lib.c's growth "
   "rule and the EXTRA_* constants re-extracted from the source on every run) - for every history of additions and deletions every write index lies inside the array as sized after the "
   "growth step (invariant by induction over the history); and the free-space accounting of the sparse column store: the guard delta < matfree of matrix_addrow keeps every write of its "
-  "in-place branch inside the array (and delta <= matfree would not), matrix_addcol and the move branch of matrix_addcoef write inside the array. Tied to /repo: counts and capacities of "
+  "in-place branch inside the array (and delta <= matfree would not), matrix_addcol and the move branch of matrix_addcoef write inside the array; and the string pool of the "
+  "symbol table: add_string leaves its grow/compact loop with room for the string and its terminator whenever the live strings fit below strsize (that hypothesis is checked on every "
+  "state of the direct symbol-table sessions of C06). Tied to /repo: counts and capacities of "
   "the real object are compared with the Cap model after every call; the raw store arrays with the transliterated Store model (check C06), whose addrow steps are checked at run time "
   "against the accounting abstraction; histories are steered to the boundaries delta = matfree, matfree +- 1. NOT provable in a model and therefore observed, not proved: actual memory accesses, undefined behaviour, uninitialised reads and reproducibility are runtime "
   "behaviour; a battery of multi-object interleavings, solves with warm restarts / tableau calls / file round trips, long edit histories and mutated LP / MPS inputs runs on the "
@@ -176,8 +178,9 @@ CLAIMS = {
   "deferred compaction) is modelled as Qsx.Symtab and compared with the real table after every operation of direct sessions (entries, every chain "
   "in chain order, capacities, pool counters); theorems symtab_history / symtab_lookup_history: for every history of registrations, deletions and renamings the "
   "hash structure stays consistent, the table holds exactly the list a four-line specification computes and a lookup returns the position of the "
-  "name in that list. Partial: the abstraction theorem Store -> Spec (that the store represents the matrix Spec describes) is not proved, it is observed through both ties.",
-  COMMON_NOTE + "Duplicate indices inside one added row/column are not generated. In Spec names are a finite map; index_reset and the item-index field of the symbol table are modelled and tied but not covered by the history theorem.",
+  "name in that list; symtab_getindex_after_reset: after index_reset with the distinct names of a well-formed table getindex of the j-th name is j. "
+  "Partial: the abstraction theorem Store -> Spec (that the store represents the matrix Spec describes) is not proved, it is observed through both ties.",
+  COMMON_NOTE + "Duplicate indices inside one added row/column are not generated. In Spec names are a finite map; the item-index field of the symbol table is covered by the reset theorem, not by the history theorem.",
   "DESIGN.md C06", "Lean 4 reference model with proved guards + per-operation model/implementation correspondence check"),
  "C07": ("proof",
   "Lean theorems over the reference model: each call is rejected exactly outside the documented argument ranges (index in [0,count), known / new "
